@@ -141,12 +141,13 @@ def iter_jobs(tier):
                   domain="non-negative homogeneous coordinates, PAD repeat, with/without transform and mask, ghost index", timeout=2400, min_props=6,
                   assumptions=[A_STEP, A_T3D, A_ITER, A_SIZE,
                                "general.quotient.nonneg: x, y >= 0 and w > 0 (the complement x < 0 or y < 0 is the job finding.general.negative_coordinate)"]))
-    # KNOWN DEFECT (DESIGN.md §7): unsigned division of a negative coordinate
+    # was the KNOWN DEFECT of DESIGN.md §7 (unsigned division of a negative coordinate), repaired by fix: 5d5e53b.  With the
+    # defect the query was a quick SAT instance at 20/8 bits; as a proof it needs the reduced operand widths of the nonneg job.
     js.append(Job("finding.general.negative_coordinate", "C08/iter.c",
-                  defines=dict(rep_defs(2), VC_ITER=1, VC_SIGNED=1, VC_XBITS=20, VC_WBITS=8, VC_NG=1, VC_WMAX=1), cbmc_flags=SAFE, unwind=3,
-                  kind="bounded", bound="|x|, |y| < 2^20, 1 <= w < 2^8, width <= 1",
+                  defines=dict(rep_defs(2), VC_ITER=1, VC_SIGNED=1, VC_XBITS=xb, VC_WBITS=wb, VC_NG=1, VC_WMAX=1), cbmc_flags=SAFE, unwind=3,
+                  kind="bounded", bound="|x|, |y| < 2^%d, 1 <= w < 2^%d, width <= 1" % (xb, wb),
                   functions=["__bits_image_fetch_general"],
-                  domain="homogeneous x, y of either sign, w > 0, PAD repeat", timeout=1200, min_props=6,
+                  domain="homogeneous x, y of either sign, w > 0, PAD repeat", timeout=2400, min_props=6,
                   assumptions=[A_STEP, A_T3D, A_ITER, A_SIZE]))
     return js
 
